@@ -37,4 +37,21 @@ example : ((BTerm.node .product [.inp "x", .inp "y"]).den
   | 0, _ => simp [BTerm.den]
   | 1, _ => simp [BTerm.den]
 
+/-- **Every binding of an edge is a node of its own.**  In the graph compiled from a container (`TreeNode.from_edges`), two different
+container nodes are two different graph nodes - also when they are outputs of the SAME edge object bound to the same parents (a layer
+used at two positions of a pipeline): the compiler never merges them, so an impure or stateful function behind both is invoked once per
+binding (`C03.at_most_once` counts per graph node).  The model side of what S-COMPILE checks on the real `GraphCompiler`. -/
+theorem node_every_binding_is_a_node {b : Bag} {o n m : BNode} (hn : n ∈ b.nodeList o) (hm : m ∈ b.nodeList o) (hne : n ≠ m) :
+    b.idx o n ≠ b.idx o m :=
+  fun h => hne (idx_inj hn hm h)
+
+/-- non-vacuity (a test): one impure edge description bound twice to no parents gives two graph nodes -/
+example :
+    let a : BNode := ⟨0, "a"⟩
+    let c : BNode := ⟨1, "b"⟩
+    let b : Bag := { inputs := [], outputs := [a, c], edges := [{ edge := .impure (.function "tick" [] []), ins := [], out := a },
+                       { edge := .impure (.function "tick" [] []), ins := [], out := c }],
+                     virt := .fin [], persistent := [], optional := [], ctx := .no, next := 2 }
+    b.idx a a ≠ b.idx a c := by decide +kernel
+
 end CM.C01
